@@ -504,7 +504,9 @@ def parse_datetime_marker(marker: str, dt: datetime.datetime, lang: Optional[str
         if presentation == 'N':
             value = dt.tzname() or ''
         elif dt.tzinfo is None:
-            value = '+00:00'
+            if presentation != 'Z':
+                return ''  # F&O 9.8.4.6: no timezone in the value, the component produces no output
+            value = '+00:00'  # military form: rendered as 'J' (local time) below
         else:
             value = str(dt)
             if value.endswith('Z'):
